@@ -30,7 +30,7 @@ TLC_JOBS = int(os.environ.get("VERIF_TLC_JOBS") or 5)
 CLASSES = {"ab": ["a-b", "a_b"], "xq": ["x?", "x__Q__"], "print": ["print", "print_"],
            "class": ["class", "class_"], "v": ["v"]}
 POOLNAMES = ["a-b", "a_b", "x?", "x__Q__", "print", "print_", "class", "class_", "v"]
-SPELL = ["bare", "al", "fqA", "fqB", "loc", "var", "bind", "redef"]
+SPELL = ["bare", "al", "fqA", "fqB", "loc", "var", "bind", "redef", "fqp"]
 UNRES, PRIV, AMB, ANY, ASSERT = -1, -2, -3, -4, -5
 DEVSETS = [[], ["MungeCollision"], ["StaleRefer"], ["MungeCollision", "StaleRefer"]]
 OPTSETS = {"direct": ({}, "d"), "indirect": ({"use_var_indirection": True}, "i"),
@@ -144,6 +144,7 @@ class World:
                 "bind": "(binding [%s 77] %s)" % (n, n),
                 # the Var is def-ed again (same root, still dynamic) while a thread binding is in effect; this changes
                 # the module global, so it is only read at the end of a history (see read_all)
+                "fqp": "((fn [%s] %s/%s) 99)" % (n, self.cur.name, n),
                 "redef": "(binding [%s 77] (def ^:dynamic %s (.-root (var %s))) %s)" % (n, n, n, n)}[sp]
 
     def encode(self, v, names):
